@@ -113,8 +113,9 @@ SetQ(Q) ==
   /\ sent' = Q.xs.sent /\ lost' = Q.xs.lost /\ sender' = Q.xs.sender /\ failIn' = Q.xs.failIn /\ sendErrs' = Q.xs.sendErrs
   /\ receiver' = Q.xs.receiver /\ recvErrs' = Q.xs.recvErrs
 
+\* (also after Close: the call returns; the client is still in sending mode, so operations are registered as pending, but the
+\* sender is gone and nothing is sent any more)
 CQ(m) ==
-  /\ conn # "closed"
   /\ SetQ(QApply(QS, m))
   /\ UNCHANGED <<cfg, conn, sending, results, acked>>
 
